@@ -126,7 +126,7 @@ func (t *TypeSpec) Describe() string {
 // Name pools. Plain names are JSON:API member names that are also safe inside
 // struct tags and URLs; exotic names need JSON escaping.
 var (
-	PlainNames  = []string{"a", "b", "c", "ab", "bc", "abc", "a-b", "a_b", "b_c", "n1", "x", "y", "z", "name", "size", "tags", "k9"}
+	PlainNames  = []string{"a", "b", "c", "ab", "bc", "abc", "a-b", "a_b", "b_c", "n1", "x", "y", "z", "name", "size", "tags", "k9", "Name", "A", "aB", "Tags"}
 	ExoticNames = []string{`q"uote`, `back\slash`, "sp ace", "é", "<html>", "a.b", "a/b", "t\tab", "世界", "a&b"}
 )
 
